@@ -309,10 +309,20 @@ def o_prefix(A, skip_early=False):
             true = A.check_reported(errs[-1], xv, mvs[k][0], "prefix/last" + sfx, snap)
             n_vals += 1
         kL, _, errsL = runs[-1]
-        if not case.get("linesearch") and not (skip_early and len(errsL) < kL):
+        ls = "@ls" if case.get("linesearch") else ""
+        if not skip_early:
+            # every prefix run ended on a different iterate => the longest run executed kL iterations
+            # and ("a list of reconstruction errors at each iteration") must report kL values
+            ks = sorted(mvs)
+            moved = len(ks) == kL and all(not np.array_equal(mvs[a][0], mvs[b][0]) for a, b in zip(ks, ks[1:]))
+            if moved:
+                check(len(errsL) == kL, "prefix/count" + ls,
+                      lambda: f"{len(errsL)} errors reported for {kL} executed iterations")
+        if len(errsL) == kL:
             for j in range(len(errsL) - 1):
                 if (j + 1) in mvs and mvs[j + 1][1]:
-                    A.check_reported(errsL[j], xv, mvs[j + 1][0], "prefix/value", mvs[j + 1][2])
+                    A.check_reported(errsL[j], xv, mvs[j + 1][0],
+                                     "prefix/value" + ("@ls" if _is_ls_iter(case, j) else ""), mvs[j + 1][2])
         return _labels(case, n_vals, true, [f"skipped_converged={skipped}"] if skip_early else [])
     return oracle
 
